@@ -1458,6 +1458,14 @@ class FnTranslator:
             cur = self.expr(t)
             v = self.e(s.value)
             if isinstance(s.op, ast.Add):
+                # `x += y` rebinds x for numbers and strings but changes a list in place, which every other name of that list sees.
+                # The translation is the rebinding one; it is only right if no other reference to the object can exist.
+                if isinstance(t, ast.Name):
+                    aliased = (t.id in self.alias or t.id in self.loop_alias or t.id in self.name_alias or t.id in self.name_alias.values())
+                    ann = next((ast.unparse(a.annotation) for a in self.fn.args.args if a.arg == t.id and a.annotation is not None), None)
+                    if aliased or (t.id in self.params and (ann is None or not re.fullmatch(r"(str|int|float|bool)", ann))):
+                        raise Unsupported(f"augmented assignment `{t.id} += …` to a name that may share its object (alias of a container element, "
+                                          "another name, or a non-scalar parameter)")
                 val = f"(pyAdd {self.atom(cur)} {v})"
             elif isinstance(s.op, ast.BitOr):
                 val = f"(Dict.update {self.atom(cur)} {v})"
